@@ -6,7 +6,7 @@
 # nor does it submit to any jurisdiction.
 
 from loki.ir import (
-    Import, Comment, Transformer, FindNodes, FindVariables,
+    Import, Comment, Associate, Transformer, FindNodes, FindVariables,
     FindLiterals, SubstituteExpressions
 )
 from loki.expression import symbols as sym
@@ -48,8 +48,13 @@ def inline_constant_parameters(routine, external_only=True):
     def is_inline_parameter(v):
         return hasattr(v, 'type') and v.type.parameter and v.type.initial is not None
 
+    def is_associate_name(v):
+        # The associate-name of an ASSOCIATE block inherits the type of its selector
+        # but is a name, not a constant: it must stay in place
+        return isinstance(getattr(v, 'scope', None), Associate)
+
     # Create mapping for variables and imports
-    vmap = {v: v.type.initial for v in variables if is_inline_parameter(v)}
+    vmap = {v: v.type.initial for v in variables if is_inline_parameter(v) and not is_associate_name(v)}
 
     # Replace kind parameters in variable types
     for variable in routine.variables:
